@@ -33,10 +33,14 @@ MUTANTS = {
         {"name": "revert_cell_type_regrouping", "file": EX, "old": "                    ordered_value[cell_ids] = value\n", "new": "                    ordered_value[:] = value\n"},
         {"name": "time_step_counter_off_by_one", "file": DS, "old": "        self.exporter._time_step_counter = time_index\n\n    def load_data_from_pvd", "new": "        self.exporter._time_step_counter = time_index + 1\n\n    def load_data_from_pvd"},
         {"name": "restored_time_one_entry_early", "file": TS, "old": "        self.time = self.exported_times[time_index]\n", "new": "        self.time = self.exported_times[time_index - 1]\n"},
-        {"name": "revert_numeric_latest_time", "file": EX,
-         "old": "            restart_timestep_str = timesteps[\n                int(np.argmax([float(timestep) for timestep in timesteps]))\n            ]",
-         "new": "            restart_timestep_str = np.unique(timesteps)[-1]"},
-        {"name": "revert_index_from_file_name", "file": EX, "old": "            time_index = int(Path(restart_vtu_files[-1]).stem[-self._padding :])", "new": "            time_index = int(float(restart_timestep_str))"},
+        {"name": "restart_step_by_largest_time_stamp", "file": EX,
+         "old": "            time_index = max(\n                _index(data[\"file\"])\n                for data in datasets\n                if not _is_constant(data[\"file\"])\n            )",
+         "new": "            time_index = _index(max((d for d in datasets if not _is_constant(d[\"file\"])), key=lambda d: float(d[\"timestep\"]))[\"file\"])"},
+        {"name": "restart_files_by_time_stamp", "file": EX,
+         "old": "                elif _index(data[\"file\"]) == time_index:", "new": "                elif data[\"timestep\"] == restart_timestep_str:"},
+        {"name": "time_index_from_time_value", "file": EX,
+         "old": "            # Collect all vtu files connected to the identified time step. Constant data",
+         "new": "            time_index = int(float(restart_timestep_str))\n            # Collect all vtu files connected to the identified time step. Constant data"},
         {"name": "revert_append_times", "file": DS, "old": "            times = times[len(times) - len(self.exporter._exported_timesteps) :]\n", "new": ""},
         {"name": "exported_dt_logs_dt_init", "file": TS, "old": "            int(self.dt) if isinstance(self.dt, np.integer) else float(self.dt)", "new": "            int(self.dt) if isinstance(self.dt, np.integer) else float(self.dt_init)"},
         {"name": "vector_data_ravel_F", "file": EX, "old": "            return np.ravel(value, \"C\")", "new": "            return np.ravel(value, \"F\")"},
